@@ -510,20 +510,26 @@ Definition rs_dur_c (s : list Z) : result durobs := bind (rs_raw s) (fun r => bi
 (* the eight keyword arguments handed to DateTime.add / DateTime.subtract *)
 Definition parts := (Z * Z * Z * Z * Z * Z * Z * Z)%type.
 
-(* pendulum.Duration: _total, _microseconds, _seconds, _days, weeks, remaining_days, hours, minutes, remaining_seconds *)
+(* pendulum.Duration: _total, _microseconds, _seconds, _days, weeks, remaining_days, hours, minutes, remaining_seconds.
+   Duration.__new__:  m = -1 if total < 0 else 1;  _microseconds = round(total % m * 1e6);  _seconds = abs(int(total)) % 86400 * m;
+   _days = abs(int(total)) // 86400 * m;  _remaining_days = abs(_days) % 7 * m;  weeks = abs(_days) // 7 * m;  the properties hours /
+   minutes / remaining_seconds multiply their magnitudes by _sign(_seconds).  For either sign `total % m` is total - trunc(total)
+   (float % keeps the sign of the divisor; the difference is exact), so the negative case is the positive one with every derived
+   field negated (sg).  A parsed duration has non-negative components, so only sg = 1 is ever exercised; the negative case is the
+   faithful reading of the same statements, not a special marker. *)
 Definition py_parts (x : Z) (o : durobs) : result parts :=
   let '(years, months, _, _, _) := o in
   let ts := int_truediv x 1000000 in                                            (* timedelta.total_seconds() *)
   let total := fsub ts (f_of_Z ((years * 365 + months * 30) * 86400)) in
-  if SFltb total f_zero then Raise E_Exception else                             (* not reachable from a parsed duration *)
+  let sg := if SFltb total f_zero then -1 else 1 in                              (* m, and _sign(_seconds) *)
   let it := f_truncZ total in
-  let md := fsub total (f_trunc total) in                                       (* total % 1 *)
+  let md := fsub total (f_trunc total) in                                       (* total % m *)
   let us := f_round_evenZ (fmul md (f_of_Z 1000000)) in
   let secs := Z.abs it mod 86400 in
   let days := Z.abs it / 86400 in
   let hours := if 3600 <=? Z.abs secs then Z.abs secs / 3600 mod 24 else 0 in
   let minutes := if 60 <=? Z.abs secs then Z.abs secs / 60 mod 60 else 0 in
-  Ok (years, months, Z.abs days / 7, Z.abs days mod 7, hours, minutes, Z.abs secs mod 60, us).
+  Ok (years, months, sg * (Z.abs days / 7), sg * (Z.abs days mod 7), sg * hours, sg * minutes, sg * (Z.abs secs mod 60), us).
 
 Definition rs_parts (r : rsdur) : parts :=
   (r_years r, r_months r, r_weeks r, r_days r, r_hours r, r_minutes r, r_seconds r, r_us r).
